@@ -363,6 +363,37 @@ pub fn a15_compare_content() {
     assert!(cc == cc_rev, "C15: compare_content is symmetric");
 }
 
+/// compare_content on records with DIFFERENT numbers of pairs: {k, n} vs {k} and vs {k, n, z}
+/// (same seq, same leading pairs): never equal
+#[cfg_attr(kani, kani::proof)]
+pub fn a15_compare_lengths() {
+    let seq = sym::u64();
+    let kv: [u8; 2] = sym::bytes::<2>();
+    let v: [u8; 2] = sym::bytes::<2>();
+    sym::assume(ref_single_item(&v));
+    let w: [u8; 2] = sym::bytes::<2>();
+    sym::assume(ref_single_item(&w));
+    let mk = |n: usize| {
+        let mut sm = SortedMap::new();
+        sm.push(b"k", mk_bytes(&kv));
+        if n >= 2 {
+            sm.push(b"n", mk_bytes(&v));
+        }
+        if n >= 3 {
+            sm.push(b"z", mk_bytes(&w));
+        }
+        Enr::<MKey>::verif_from_parts(seq, NodeId::new(&[0u8; 32]), sm.done(), Vec::new())
+    };
+    let (a, b, c) = (mk(1), mk(2), mk(3));
+    let r = (a.compare_content(&b), b.compare_content(&a), b.compare_content(&c), c.compare_content(&b), b.compare_content(&b));
+    core::mem::forget(a);
+    core::mem::forget(b);
+    core::mem::forget(c);
+    assert!(!r.0 && !r.1, "C15: compare_content is false when one record has a pair the other lacks");
+    assert!(!r.2 && !r.3, "C15: compare_content is false when one record's pairs are a strict prefix of the other's");
+    assert!(r.4, "C15: compare_content of a record with itself is true");
+}
+
 // ------------------------------------------------------------------------------------------------
 // verify() pinned on by-parts records (used compositionally by C05/C06, and by C01)
 // ------------------------------------------------------------------------------------------------
